@@ -152,7 +152,10 @@ typedef struct gost28147_context_s {
 
 
 #define GOST28147_PTR_IS_ALIGNED4(__ptr) (0 == (((size_t)__ptr) & 3))
-#define GOST28147_PTR_8TO32(__ptr)	((uint32_t*)(void*)(size_t)(__ptr))
+/* Words accessed through these pointers alias the caller's byte buffers,
+ * whatever type they were declared with: tell the compiler (strict aliasing). */
+typedef uint32_t __attribute__((__may_alias__)) gost28147_u32a_t;
+#define GOST28147_PTR_8TO32(__ptr)	((gost28147_u32a_t*)(void*)(size_t)(__ptr))
 
 /* interpret four 8 bit unsigned integers as a 32 bit unsigned integer in little endian */
 static inline uint32_t
@@ -255,7 +258,7 @@ gost28147_mac_block(gost28147_context_p ctx, uint32_t n1, uint32_t n2) {
 /* Block encrypt. */
 static inline void
 gost28147_block_encrypt(gost28147_context_p ctx, uint32_t n1, uint32_t n2,
-    uint32_t *dst_n1, uint32_t *dst_n2) {
+    gost28147_u32a_t *dst_n1, gost28147_u32a_t *dst_n2) {
 
 	/* First 24 rounds. */
 	GOST28147_DIRECT_KEY_ROUND8(ctx, n1, n2);
@@ -270,7 +273,7 @@ gost28147_block_encrypt(gost28147_context_p ctx, uint32_t n1, uint32_t n2,
 /* Block encrypt. */
 static inline void
 gost28147_block_decrypt(gost28147_context_p ctx, uint32_t n1, uint32_t n2,
-    uint32_t *dst_n1, uint32_t *dst_n2) {
+    gost28147_u32a_t *dst_n1, gost28147_u32a_t *dst_n2) {
 
 	/* First direct key order 8 rounds. */
 	GOST28147_DIRECT_KEY_ROUND8(ctx, n1, n2);
